@@ -18,8 +18,9 @@ The store-level theorems are stated for any table implementation `T` with `L : T
 `C24_rhh_refines` instantiates them for the table of the code.
 Core Lean only.
 -/
-import PV.C24.Lemmas6
+import PV.C24.Lemmas7
 import PV.C24.RefTable
+import PV.C24.LemmasRHH7
 namespace PV.C24
 open List
 
@@ -35,23 +36,6 @@ example : (⟨1, [105], [], [(1, [107, 49]), (2, []), (300, [7, 7, 7])]⟩ : Ent
       rw [putUvarint]; simp; rw [putUvarint]; simp
     have h : ∀ x, x < 128 → putUvarint x = [x] := fun x hx => by rw [putUvarint]; simp [hx]
     simp [encodeBody, encodePairs, encodePair, h300, h]
-
-/-- What a finished run reports, checked against the final store. -/
-def DoneAgrees (T : TableImpl) (y : Sys T.τ) (d : Done) : Prop :=
-  d.ids.length = d.keys.length ∧
-  ∀ kr ∈ d.keys.zip d.ids,
-    1 ≤ kr.2 ∧ lookupId T y.store d.ns kr.1 = .ok (some kr.2) ∧ keyOf y.store d.ns kr.2 = .ok kr.1
-
-theorem run_append (T : TableImpl) (a b : List Step) : ∀ (y : Sys T.τ),
-    Sys.run T y (a ++ b) = (Sys.run T y a >>= fun y' => Sys.run T y' b) := by
-  induction a with
-  | nil => intro y; rfl
-  | cons st a ih =>
-    intro y
-    simp only [cons_append, Sys.run]
-    cases y.step T st with
-    | error e => rfl
-    | ok y1 => simp only [ebind_ok]; exact ih y1
 
 /-- Any number of callers, any interleaving of their phases (`steps`), starting from an empty
 store: nothing panics or hangs; every call that returned without error reported, for each key, a
@@ -99,17 +83,6 @@ example : ∀ st ∈ [Step.start (.col [105]) [[97], [98], [97]], .start (.col [
     .finish 1, .finish 0, .start (.col [105]) [[97], [99]]], StepOK st := by
   intro st hs; simp at hs; rcases hs with rfl | rfl | rfl | rfl | rfl <;> simp [StepOK] <;> omega
 
-/-- The sequence number of a namespace (`none` = no index). -/
-def seqOf {τ : Type} (s : Store τ) (ns : NsKey) : Option Nat := (getNs s.nss ns).map (·.seq)
-
-theorem seqOf_good {T : TableImpl} {L : TableLaws T} {s : Store T.τ} {es : List Entry}
-    (h : Good T L s es) (ns : NsKey) :
-    seqOf s ns = if Spec.hasNs es ns then some (maxId (Spec.pairsOf es ns)) else none := by
-  unfold seqOf
-  cases hget : getNs s.nss ns with
-  | none => simp [h.nss.none ns hget]
-  | some ix => obtain ⟨a, _, c⟩ := h.nss.some ns ix hget; simp [a, c]
-
 /-- Restart: replaying the file of a store that agrees with its (encodable) log succeeds and
 yields the same file, position, sequence numbers and answers. -/
 theorem C24_restart (T : TableImpl) (L : TableLaws T) (s : Store T.τ) (es : List Entry)
@@ -133,9 +106,6 @@ theorem C24_reachable_good (T : TableImpl) (L : TableLaws T) (ro : Bool) (steps 
     ∃ y es, Sys.run T (Sys.init T ro) steps = .ok y ∧ Good T L y.store es ∧ LogOKAll es := by
   obtain ⟨y, es, hrun, hinv, _, _⟩ := run_inv steps (Sys.init T ro) [] (SysInv.init T L ro) hfit
   exact ⟨y, es, hrun, hinv.good, hinv.log⟩
-
-theorem fileOf_append (a b : List Entry) : Spec.fileOf (a ++ b) = Spec.fileOf a ++ Spec.fileOf b := by
-  simp [Spec.fileOf]
 
 /-- Replication: the replica `r` holds the first `k` entries of the primary `p`; one replicate()
 session reads the primary's file from the replica's size in reads of arbitrary sizes, possibly cut
@@ -204,5 +174,25 @@ theorem C24_reader_delivers_all (data : Bytes) (limit : Nat) (sizes : List Nat) 
 /-- The finite-map laws are satisfiable: a plain association-list table meets them, so the
 hypothesis `L : TableLaws T` of the theorems above is not vacuous. -/
 example : TableLaws refTable := refLaws
+
+/-- The robin-hood table of translate.go (alloc, dist, idByKey with the distance cut-off,
+insertIDbyOffset with swaps and the once-computed key, growth by doubling at 90 % load with
+re-insertion, the n++ / n-- bookkeeping) satisfies the finite-map laws for ANY hash function `H`:
+the empty table finds nothing; on a valid table lookups never fail (no panic, no endless loop);
+`insert` of an offset whose key is `k` succeeds, keeps validity and changes lookups exactly like
+a map update at `k`; and validity and lookups do not depend on the key file growing.
+(`rhhLaws H` is that instance; its components are the statements.) -/
+theorem C24_rhh_refines (H : Bytes → Nat) : Nonempty (TableLaws (rhh H)) := ⟨rhhLaws H⟩
+
+/-- a hash function that sends every key to the same slot (all collisions) is covered too -/
+example : Nonempty (TableLaws (rhh (fun _ => 7))) := C24_rhh_refines _
+
+/-- `C24_bijection` for the table of the code, any hash function. -/
+theorem C24_bijection_rhh (H : Bytes → Nat) (ro : Bool) (steps : List Step)
+    (hfit : ∀ st ∈ steps, StepOK st) :
+    ∃ y es, Sys.run (rhh H) (Sys.init (rhh H) ro) steps = .ok y ∧ Good (rhh H) (rhhLaws H) y.store es ∧
+      (∀ d ∈ y.done, d.ok = true → DoneAgrees (rhh H) y d) ∧
+      (∀ a b, steps = a ++ b → ∃ ya l, Sys.run (rhh H) (Sys.init (rhh H) ro) a = .ok ya ∧ y.done = ya.done ++ l) :=
+  C24_bijection (rhh H) (rhhLaws H) ro steps hfit
 
 end PV.C24
